@@ -731,6 +731,43 @@ def unordered_comprehensions(mod: Mod, known_sets=(), param_sets=None):
     return out
 
 
+def sequences_in_set_order(mod: Mod, known_sets=(), param_sets=None):
+    """list(<set>) / tuple(<set>) / [*<set>] / numpy.array(list(<set>)): a sequence whose order is the set's hash order, made outside an order-insensitive
+    consumer (sorted(...), set(...), len(...), min / max / any / all): [(qualname, node, description)].  Whatever is done with it next - rows of a matrix,
+    a loop, a joined string - happens in an order that changes with PYTHONHASHSEED"""
+    out = []
+    param_sets = param_sets or {}
+    for q, f in mod.funcs.items():
+        known = set(known_sets) | set(param_sets.get(q, {}))
+        defs = {}
+        for st in ast.walk(f):
+            if isinstance(st, ast.Assign) and len(st.targets) == 1 and isinstance(st.targets[0], ast.Name):
+                defs.setdefault(st.targets[0].id, []).append(st.value)
+        known |= {k for k, vs in defs.items() if all(_is_set_expr(v, known) for v in vs)}
+        known -= {k for k, vs in defs.items() if not all(_is_set_expr(v, known) for v in vs)}
+        parents = {}
+        for p_ in ast.walk(f):
+            for c in ast.iter_child_nodes(p_):
+                parents[id(c)] = p_
+        for n in ast.walk(f):
+            if any(n in ast.walk(g) for qq, g in mod.funcs.items() if qq != q and qq.startswith(q + ".")):
+                continue
+            src_set = None
+            if isinstance(n, ast.Call) and (dotted_name(n.func) or "") in ("list", "tuple", "numpy.array", "numpy.asarray") and len(n.args) >= 1 and _is_set_expr(n.args[0], known):
+                src_set = n.args[0]
+            elif isinstance(n, (ast.List, ast.Tuple)) and len(n.elts) == 1 and isinstance(n.elts[0], ast.Starred) and _is_set_expr(n.elts[0].value, known):
+                src_set = n.elts[0].value
+            if src_set is None:
+                continue
+            par = parents.get(id(n))
+            if isinstance(par, ast.Call) and n in par.args and (dotted_name(par.func) or src(par.func)) in ORDER_INSENSITIVE_CONSUMERS:
+                continue
+            if isinstance(par, (ast.For, ast.comprehension)) and par.iter is n:
+                continue            # iterated on the spot: judged as a loop / comprehension over the set itself
+            out.append((q, n, f"set {src(src_set)[:40]}"))
+    return out
+
+
 def ordered_containers(fd) -> set:
     """names of locals/parameters of fd that certainly are pandas tables or series (their column / row order is what gets
     printed and iterated): annotated so, or bound to a pandas constructor / reader"""
